@@ -338,7 +338,13 @@ def main(mod, tier, replay=None, nworkers=None):
     required = getattr(mod, "REQUIRED_EVENTS", {})
     if isinstance(required, dict) and tier in required and isinstance(required[tier], dict):
         required = required[tier]
-    missing = [k for k, v in required.items() if events.get(k, 0) < v] if not replay else []
+    def _observed(k):
+        # MPI collectives count by family: "Alltoall" is also satisfied by Alltoallv / alltoall, "Allgather" by Allgatherv ...
+        # (which member of a family the code under test uses is not part of any property)
+        if k[:1].isupper() and k.lower() in ("alltoall", "allgather", "gather", "scatter", "reduce", "allreduce", "bcast"):
+            return sum(v for name, v in events.items() if name.lower().rstrip("vw") == k.lower())
+        return events.get(k, 0)
+    missing = [k for k, v in required.items() if _observed(k) < v] if not replay else []
 
     # ---- verdict lines -----------------------------------------------------------------------
     exit_code = 0
